@@ -377,22 +377,24 @@ MspRPT(st) ==
                               args |-> <<KillPref(RightOf(r1, p2))>> \o Tail(st.args)]
 
 \* code3206x.c ReiterateOpPart() / code7720.c DecodeOP() / code7000.c DecodeDCT_DCF(): the first field of the
-\* first parameter becomes the mnemonic.  dot: the C6x cuts the unit off at the first "."; trim: the SH-DSP
-\* variant does not remove the blanks in front of the remaining operand (DCTKeepsBlanks)
-Reiterate(st, dot, trim) ==
-  IF st.args = <<>> THEN Rejected
+\* first parameter becomes the mnemonic.  dot: the C6x cuts the unit off at the first "."; trim / up: the SH-DSP
+\* variant neither removes the blanks in front of the remaining operand nor folds the case of the new mnemonic
+\* (DCTKeepsBlanks); noarg: without any parameter the uPD772x OP statement stands for itself, the others are rejected
+Reiterate(st, dot, trim, up, noarg) ==
+  IF st.args = <<>> THEN (IF noarg THEN [ok |-> TRUE, pre |-> <<st.op>>, op |-> <<>>, attr |-> <<>>, args |-> <<>>] ELSE Rejected)
   ELSE LET a1 == st.args[1]
            p  == FirstBlank(a1)
-           o  == UpStr(IF p = 0 THEN a1 ELSE LeftOf(a1, p))
+           o0 == IF p = 0 THEN a1 ELSE LeftOf(a1, p)
+           o  == IF up THEN UpStr(o0) ELSE o0
            oa == IF dot THEN OpAttrAt(o, StrChr1(o, DOT)) ELSE [op |-> o, attr |-> <<>>]
            r  == IF p = 0 THEN <<>> ELSE <<IF trim THEN KillPref(RightOf(a1, p)) ELSE RightOf(a1, p)>>
        IN  [ok |-> TRUE, pre |-> <<st.op>>, op |-> oa.op, attr |-> oa.attr, args |-> r \o Tail(st.args)]
 
 \* code3206x.c MakeCode_3206X(): "||" as mnemonic, then "[cond]" as mnemonic, each re-iterated once
 C6xPrefixes(st) ==
-  LET s1 == IF st.op = <<124, 124>> THEN Reiterate(st, TRUE, TRUE) ELSE [ok |-> TRUE, pre |-> <<>>, op |-> st.op, attr |-> st.attr, args |-> st.args]
+  LET s1 == IF st.op = <<124, 124>> THEN Reiterate(st, TRUE, TRUE, TRUE, FALSE) ELSE [ok |-> TRUE, pre |-> <<>>, op |-> st.op, attr |-> st.attr, args |-> st.args]
       s2 == IF s1.ok /\ Len(s1.op) > 0 /\ s1.op[1] = LBRK
-            THEN LET r == Reiterate([op |-> s1.op, attr |-> s1.attr, args |-> s1.args], TRUE, TRUE)
+            THEN LET r == Reiterate([op |-> s1.op, attr |-> s1.attr, args |-> s1.args], TRUE, TRUE, TRUE, FALSE)
                  IN  [r EXCEPT !.pre = s1.pre \o r.pre]
             ELSE s1
   IN  s2
@@ -452,8 +454,8 @@ PreprocFields(h) ==
 
 Resplit(kind, st) == CASE kind = "rpt"   -> MspRPT(st)
                        [] kind = "c6x"   -> C6xPrefixes(st)
-                       [] kind = "op"    -> Reiterate(st, FALSE, TRUE)
-                       [] kind = "dct"   -> Reiterate(st, FALSE, FALSE)
+                       [] kind = "op"    -> Reiterate(st, FALSE, TRUE, TRUE, TRUE)
+                       [] kind = "dct"   -> Reiterate(st, FALSE, FALSE, FALSE, FALSE)
                        [] kind = "pref"  -> RabbitPref(st)
                        [] kind = "brbit" -> HC12BrBit(st)
                        [] kind = "bit"   -> HC12Bit(st)
